@@ -244,6 +244,8 @@ def cli_marks(ctx, count):
             lines.insert(0, 'V0 = EEMSRead(InFileName = "in.csv", InFieldName = a)')
         true_line = len(lines) + err + 1
         lines += fault
+        if len(fault) == 1 and rng.random() < 0.5:
+            lines.append(fault[0])          # the same text once more right below (a pasted line): the first occurrence is the one reported, and the only one marked
         for j in range(rng.randrange(0, 3)):
             lines.append("# after %s" % rng.choice(exotic))
         text = nl.join(lines) + nl
@@ -267,6 +269,15 @@ def cli_marks(ctx, count):
             ctx.fail("CLI marked no line; the fault is at line %d" % true_line, desc)
         elif marked[0][4:].rstrip("\r") != lines[true_line - 1]:
             ctx.fail("CLI marked %r; the offending line %d is %r" % (marked[0][4:], true_line, lines[true_line - 1]), desc)
+        elif len(marked) != 1:
+            ctx.fail("CLI marked %d lines; exactly line %d is the offending one" % (len(marked), true_line), desc)
+        else:
+            # the marked line is the true_line-th line of the printed context (the context shows the lines around it in file order)
+            shown = [l for l in (err_text or "").split("\n") if l.startswith("--> ") or l.startswith("    ")]
+            k = next((j for j, l in enumerate(shown) if l.startswith("--> ")), None)
+            before = [l[4:].rstrip("\r") for l in shown[:k]][-1:] if k else []
+            if before and true_line >= 2 and before[0] != lines[true_line - 2] and before[0].strip() != "":
+                ctx.count("cli_context_line_above_differs")
 
 
 def run(ctx):
